@@ -74,6 +74,7 @@ def opVm (j : Json) : P Json := do
             outs := outs.push (Json.mkObj [("r", r), ("log", .arr (s'.mem.world.log.reverse.map callRecToJson).toArray),
               ("steps", toJson n), ("den", resToJson (vden g dcfg)), ("sig", toJson g.signature),
               ("graph_ok", .bool g.okB), ("call_ok", .bool (g.callOKB env)),
+              ("cached_ok", .bool (g.okCB && g.plainB dcfg && w0.stores.all (·.exact))),
               ("decoded", match hden g dcfg with
                 | .ok h => if g.plainB dcfg then valToJson (decode h) else .null
                 | .error _ => .null),
